@@ -12,6 +12,7 @@ import Mashu.Discr
 import Mashu.Cache
 import Mashu.Lazy
 import Mashu.Share
+import Mashu.Hooks
 import Mashu.Generated
 open Lean
 
@@ -293,6 +294,56 @@ def dispatchShare (j : Json) : Except String Json := do
   let ids := Share.refIds (Share.packS N ty v)
   pure (Json.mkObj [("shared", Json.arr (ids.map (fun n => Json.num (JsonNumber.fromNat n))).toArray)])
 
+/-- C19: hook traces -/
+partial def toHT (j : Json) : Except String Hooks.HT := do
+  match j with
+  | .str "leaf" => pure .leaf
+  | .arr a =>
+    match a[0]! with
+    | .str "dc" => do
+        let fs ← (← arr a[2]!).toList.mapM (fun p => do
+          let p ← arr p
+          pure ((← str p[0]!), (← toHT p[1]!)))
+        pure (.dc (← str a[1]!) fs)
+    | .str "list" => do pure (.list (← toHT a[1]!))
+    | .str "tup" => do pure (.tup (← (← arr a[1]!).toList.mapM toHT))
+    | .str "union" => do pure (.union (← (← arr a[1]!).toList.mapM toHT))
+    | _ => throw "bad HT"
+  | _ => throw "bad HT"
+
+partial def toHV (j : Json) : Except String Hooks.HV := do
+  match j with
+  | .str "leaf" => pure .leaf
+  | .arr a =>
+    match a[0]! with
+    | .str "inst" => do
+        let uid ← (match a[2]! with | .num n => pure n.mantissa.toNat | _ => throw "bad uid")
+        let fs ← (← arr a[3]!).toList.mapM (fun p => do
+          let p ← arr p
+          pure ((← str p[0]!), (← toHV p[1]!)))
+        pure (.inst (← str a[1]!) uid fs)
+    | .str "list" => do pure (.list (← (← arr a[1]!).toList.mapM toHV))
+    | _ => throw "bad HV"
+  | _ => throw "bad HV"
+
+def dispatchHooks (j : Json) : Except String Json := do
+  let t ← toHT (j.getObjValD "ty")
+  let v ← toHV (j.getObjValD "value")
+  let cj := j.getObjValD "classes"
+  let H : Hooks.Table := fun c =>
+    let o := cj.getObjValD c
+    { preSer := getB o "pre_ser", postSer := getB o "post_ser", preDe := getB o "pre_de", postDe := getB o "post_de", ctx := getB o "ctx" }
+  let ofK (k : Hooks.Kind) : String := match k with
+    | .preSer => "pre_ser" | .postSer => "post_ser" | .preDe => "pre_de" | .postDe => "post_de"
+  let ofEv (e : Hooks.Ev) : Json := Json.arr #[Json.str (ofK e.kind), Json.str e.cls, Json.num (JsonNumber.fromNat e.uid), Json.bool e.ctx]
+  let c := getB j "context"
+  if getB j "decode" then
+    let r := Hooks.unpackT H t v
+    pure (Json.mkObj [("impl", Json.arr (r.1.map ofEv).toArray), ("ok", Json.bool r.2), ("spec", Json.arr ((Hooks.travD H t v).map ofEv).toArray)])
+  else
+    let r := Hooks.packT H (getB j "nailed") c t v
+    pure (Json.mkObj [("impl", Json.arr (r.1.map ofEv).toArray), ("ok", Json.bool r.2), ("spec", Json.arr ((Hooks.trav H c v).map ofEv).toArray)])
+
 def natList (j : Json) : Except String (List Nat) := do
   (← arr j).toList.mapM (fun x => match x with
     | .num n => if n.exponent == 0 && n.mantissa ≥ 0 then pure n.mantissa.toNat else throw "bad code point"
@@ -330,6 +381,7 @@ def dispatch (j : Json) : Except String Json := do
   | "cache" | "merge" => dispatchCache op j
   | "lazy" => dispatchLazy j
   | "share" => dispatchShare j
+  | "hooks" => dispatchHooks j
   | _ => throw s!"unknown op {op}"
 
 end Mashu
